@@ -10,3 +10,38 @@ FLOAT_ALLOWED = [
     "FunctionalExtensionality.functional_extensionality_dep", "Classical_Prop.classic",
 ]
 FLOAT_PATTERNS = [r"PrimInt63\.[A-Za-z0-9_]+", r"PrimFloat\.[A-Za-z0-9_]+", r"Uint63\.[A-Za-z0-9_]+"]
+
+
+def parse_print_assumptions(out):
+    """names listed by every `Print Assumptions` answer in coqc's output: an entry is a name at the start of a line (its type may
+    continue on indented lines); a block ends at an empty line, at the next answer or at the end of the output"""
+    import re
+    listed = []
+    lines = out.split("\n")
+    for li, line in enumerate(lines):
+        if line.strip() != "Axioms:":
+            continue
+        for nxt in lines[li + 1:]:
+            if not nxt.strip() or nxt.startswith(("Closed under", "Axioms:", "File ", "Warning")):
+                break
+            if nxt[0] in " \t":
+                continue
+            m = re.match(r"^([A-Za-z_][A-Za-z0-9_.']*)", nxt)
+            listed.append(m.group(1) if m else "?")
+    return listed
+
+
+def unexpected(listed, allowed, patterns):
+    """the listed names that are neither allowed by name (with or without their module prefix) nor by pattern"""
+    import re
+    pats = [re.compile(x) for x in patterns]
+    allowed = set(allowed)
+    bad = []
+    for a in listed:
+        if a in allowed or any(x.fullmatch(a) for x in pats):
+            continue
+        mod, _, base = a.rpartition(".")
+        if base in allowed and mod.split(".")[-1] in ("FloatAxioms", "Uint63", "Uint63Axioms", "PrimFloat", "PrimInt63", "FloatOps"):
+            continue
+        bad.append(a)
+    return sorted(set(bad))
